@@ -926,3 +926,84 @@ Proof.
   assert (P2 : f * (Sfc - 5/1000 * n) <= f * Tfc) by (apply Rmult_le_compat_l; lra).
   rewrite S1, S2, S3 in *. rewrite Hsum. lra.
 Qed.
+
+(* ------------------------------------------------------------------------------------------------ *)
+(* IrrNet >= 0 is false for the model (and for the code): a witness *)
+From Flocq Require Import Core.
+
+Lemma Rround_near d x n : Rabs (x * pow10 d - IZR n) < /2 -> Rround d x = IZR n / pow10 d.
+Proof. intros H. unfold Rround. f_equal. f_equal. apply Znearest_imp. exact H. Qed.
+
+Lemma Rround2_near x n : - (1/2) < x * 100 - IZR n < 1/2 -> Rround 2 x = IZR n / 100.
+Proof.
+  intros H. rewrite (Rround_near 2 x n); [unfold pow10; simpl; reflexivity|].
+  unfold pow10; simpl. unfold Rabs. destruct (Rcase_abs _); lra.
+Qed.
+
+Definition rf_c : Comp R :=
+  {| c_dz := 10/100; c_dzsum := 10/100; c_zmid := 5/100; c_layer := 1;
+     c_th_dry := 5/100; c_th_wp := 10006/100000; c_th_fc := 30/100; c_th_s := 50/100;
+     c_ksat := 500; c_tau := 76/100; c_pen := 100; c_acr := 0; c_bcr := 0 |}.
+Definition rf_k : TrCrop :=
+  {| k_MaxCanopyCD := 119; k_Kcb := 11/10; k_fage := 15/100; k_a_Tr := 1; k_TrColdStress := 1; k_GDD_up := 14; k_GDD_lo := 0;
+     k_LagAer := 3; k_Zmin := 10/100; k_Aer := 5;
+     k_pu0 := 20/100; k_pu1 := 65/100; k_pu2 := 70/100; k_pu3 := 85/100;
+     k_pl0 := 65/100; k_pl1 := 1; k_pl2 := 1; k_pl3 := 1;
+     k_ETadj := 1; k_beta := 12; k_fs0 := 5; k_fs1 := 25/10; k_fs2 := 25/10;
+     k_SxTop := 48/1000; k_SxBot := 12/1000 |}.
+Definition rf_s : TrState :=
+  {| s_dap := 50; s_delayed_cds := 0; s_age_days_ns := 0; s_age_days := 0;
+     s_ccx_w_ns := 9/10; s_ccx_w := 9/10; s_cc_adj_ns := 1; s_cc_adj := 1; s_cc_ns := 9/10; s_cc := 9/10;
+     s_cc_prev := 9/10; s_surf := 0; s_day_sub := 0; s_aer_comp := [0];
+     s_z_root := 10/100; s_th := [20004/100000]; s_t_early_sen := 0; s_aer_days := 0; s_r_cor := 1;
+     s_irr_net_cum := 0; s_depletion := 0; s_taw := 0; s_tr_ratio := 1; s_t_pot := 0 |}.
+
+Lemma rf_rd : tr_rootdepth (s_z_root rf_s) (k_Zmin rf_k) = 10/100.
+Proof.
+  unfold tr_rootdepth, pmax. cbn [rf_s rf_k s_z_root k_Zmin]. rnum. rdecide.
+  rewrite (Rround2_near (10/100) 10) by (simpl; lra). reflexivity.
+Qed.
+
+Lemma rf_plan : tr_plan rf_k 4 (s_r_cor rf_s) (10/100) (tr_comp_sto [rf_c] (10/100)) [rf_c] (k_SxTop rf_k) =
+                [(rf_c, 1, (48/1000 + 12/1000) / 2)].
+Proof.
+  unfold tr_comp_sto. cbn [count_if length rf_c c_dzsum]. rnum. rdecide.
+  cbn [Z.add Z.of_nat Z.min Z.compare Z.to_nat Pos.to_nat Pos.iter_op Pos.of_succ_nat Pos.compare Pos.compare_cont Init.Nat.add].
+  change (Pos.to_nat 1) with 1%nat. cbn [tr_plan Z.eqb Pos.eqb]. unfold tr_rootfact. cbn [rf_c c_dzsum rf_k k_SxTop k_SxBot]. rnum. rdecide. reflexivity.
+Qed.
+
+(* the lower bound cannot be improved to 0: one 0.1 m compartment, th_wp = 0.10006, th = 0.20004, 50 % target.
+   root_zone_water rounds 10.006 mm up to 10.01 and 20.004 mm down to 20.00, the trigger 20.00 < 20.005 fires,
+   and the unrounded requirement is (0.20003 - 0.20004) * 100 mm = -0.001 mm.
+   Replayed on the Python (day_submerged = LagAer so that nothing is extracted): IrrNet = -0.001000000000001. *)
+Theorem irrnet_nonneg_refuted :
+  let rd := tr_rootdepth (s_z_root rf_s) (k_Zmin rf_k) in
+  let plan := tr_plan rf_k 4 (s_r_cor rf_s) rd (tr_comp_sto [rf_c] rd) [rf_c] (k_SxTop rf_k) in
+  wf_prof [rf_c] /\ in_bounds [rf_c] (s_th rf_s) /\ layers_ok [rf_c] /\
+  exists th2 irrnet cum d t,
+    tr_tail [rf_c] (10/100) rf_k 4 50 rf_s plan (s_th rf_s) 1 = Some (th2, irrnet, cum, d, t) /\ irrnet < 0.
+Proof.
+  cbv zeta. rewrite rf_rd, rf_plan. cbn [rf_s s_th].
+  split; [repeat constructor; cbn [rf_c c_dz c_th_dry c_th_wp c_th_fc c_th_s c_tau c_ksat]; lra|].
+  split; [repeat constructor; cbn [rf_c c_th_dry c_th_s]; lra|].
+  split; [unfold layers_ok; cbn [layers_from rf_c c_layer]; split; [left; lia|exact I]|].
+  do 5 eexists. split.
+  - unfold tr_tail. cbn [Z.eqb Pos.eqb andb]. rnum. rdecide.
+    unfold root_zone_water. cbn [rf_s rf_k s_z_root k_Zmin k_Aer s_irr_net_cum]. rnum.
+    unfold npmax. rnum. repeat rdecide.
+    rewrite (Rround2_near (10/100) 10) by (simpl; lra).
+    cbn [rz_loop rf_c c_dz c_dzsum c_th_dry c_th_wp c_th_fc c_th_s]. unfold rz_term. rnum. cbn [a_act a_s a_fc a_wp a_dry a_aer].
+    repeat rdecide.
+    rewrite (Rround2_near (1 * 1000 * (20004 / 100000) * (10 / 100)) 2000) by (simpl; lra).
+    rewrite (Rround2_near (1 * 1000 * (50 / 100) * (10 / 100)) 5000) by (simpl; lra).
+    rewrite (Rround2_near (1 * 1000 * (30 / 100) * (10 / 100)) 3000) by (simpl; lra).
+    rewrite (Rround2_near (1 * 1000 * (10006 / 100000) * (10 / 100)) 1001) by (simpl; lra).
+    rewrite (Rround2_near (1 * 1000 * (5 / 100) * (10 / 100)) 500) by (simpl; lra).
+    rewrite (Rround2_near (1 * 1000 * (50 / 100 - 5 / 100) * (10 / 100)) 4500) by (simpl; lra).
+    cbn [a_act a_s a_fc a_wp a_dry a_aer]. repeat rdecide. cbn [rz_Act rz_WP rz_FC rz_Dr_Rz rz_TAW_Rz]. repeat rdecide.
+    cbn [tr_netirr pl_comp pl_rf fst snd rf_c c_layer c_th_wp c_th_fc c_dz Z.ltb Z.compare]. rnum.
+    reflexivity.
+  - cbn. lra.
+Qed.
+
+(* Print Assumptions tr_le_pot transpiration_balance transpiration_bounds irrnet_lower: only the axioms of Coq's Reals. *)
